@@ -1,4 +1,5 @@
 """Helpers over astq value trees (JSON dicts)."""
+import re
 
 TRANSPARENT_CALLS = {
     'clone', 'to_string', 'to_owned', 'as_str', 'as_ref', 'into', 'as_slice', 'borrow', 'deref',
@@ -223,3 +224,91 @@ def lits(v):
 def fmt_text(f):
     """Literal skeleton of a fmt value with holes as {}."""
     return ''.join(p['lit'] if 'lit' in p else '{}' for p in f.get('parts', []))
+
+
+def unvar(v):
+    while isinstance(v, dict) and v.get('k') == 'var':
+        v = v['v']
+    return v
+
+
+def peval(v, oracle, depth=0):
+    """Partially evaluate a value tree.  `oracle(scrutinee)` returns the variant name the scrutinee is assumed to have
+    ('Some', 'None', 'Ok', 'Err', …), True/False for a boolean condition, or None when it has no opinion.  Decided
+    conditionals, matches, tuple projections and Option defaulting adaptors are resolved; everything else is returned as is."""
+    if depth > 40:
+        return v
+    v = unvar(v)
+    if not isinstance(v, dict):
+        return v
+    kk = v.get('k')
+    if kk == 'paren':
+        return peval(v.get('v'), oracle, depth + 1)
+    if kk == 'cond':
+        c = unvar(v['c'])
+        if isinstance(c, dict) and c.get('k') == 'iflet':
+            d = oracle(unvar(c.get('scrut')))
+            if d is not None and not isinstance(d, bool):
+                hit = any(d == x.split('::')[-1] for x in c.get('variants', []))
+                return peval(v['t'] if hit else v.get('e'), oracle, depth + 1)
+        else:
+            d = oracle(c)
+            if isinstance(d, bool):
+                return peval(v['t'] if d else v.get('e'), oracle, depth + 1)
+        return v
+    if kk == 'match':
+        d = oracle(unvar(v.get('scrut')))
+        if d is not None and not isinstance(d, bool):
+            for a in v.get('arms', []):
+                if a.get('guard'):
+                    return v
+                vs = [x.split('::')[-1] for x in a.get('variants', [])]
+                if d in vs or '_' in vs or (not vs and re.fullmatch(r'[a-z_][A-Za-z0-9_]*', str(a.get('pat', '')).strip())):
+                    return peval(a.get('v'), oracle, depth + 1)
+        return v
+    if kk == 'field' and str(v.get('name', '')).isdigit():
+        b = peval(v.get('base'), oracle, depth + 1)
+        if isinstance(b, dict) and b.get('k') == 'tuple' and int(v['name']) < len(b.get('items', [])):
+            return peval(b['items'][int(v['name'])], oracle, depth + 1)
+        return v if b is v.get('base') else dict(v, base=b)
+    if kk == 'call' and v.get('recv') is not None and v.get('f') in ('unwrap_or_else', 'unwrap_or', 'unwrap_or_default'):
+        s = unvar(v['recv'])
+        d = oracle(s)
+        if d == 'Some':
+            return {'k': 'payload', 'of': s, 'variant': 'Some'}
+        if d == 'None' and v.get('args'):
+            a = unvar(v['args'][0])
+            if isinstance(a, dict) and a.get('k') == 'closure':
+                a = a.get('body')
+            return peval(a, oracle, depth + 1)
+    return v
+
+
+def ckey(v):
+    """Canonical structural key of a value: variable wrappers, `?`, clones/borrows and source positions are seen
+    through, so two expressions denoting the same value compare equal however they were bound to local names."""
+    import json as _j
+
+    def clean(x, d=0):
+        if d > 80:
+            return '…'
+        x = strip(x) if isinstance(x, dict) else x
+        if isinstance(x, dict):
+            return {k2: clean(y, d + 1) for k2, y in x.items() if k2 not in ('line', 'id', 'recv_text', 'ty', 'root_ty', 'turbofish', 'param', 'name' if x.get('k') == 'var' else '', 'inlined', 'via', 'via_line')}
+        if isinstance(x, list):
+            return [clean(y, d + 1) for y in x]
+        return x
+    return _j.dumps(clean(v), sort_keys=True)
+
+
+def is_field_of(v, base, name):
+    """Is v the field `name` of the value `base` (either as an access path or as a field node)?"""
+    v = strip(v)
+    if not isinstance(v, dict):
+        return False
+    if v.get('k') == 'field' and v.get('name') == name:
+        return ckey(v.get('base')) == ckey(base)
+    if v.get('k') == 'atom' and v.get('path') and v['path'][-1] == name:
+        b = dict(v, path=v['path'][:-1])
+        return ckey(b) == ckey(base)
+    return False
